@@ -10,7 +10,8 @@
 //	    cross-engine: equivalent formulations of one query, one that stays in SQL and one that forces the breakpoint,
 //	    run end to end (/loki/api/v1/query_range) over the same stored data through e2e.World (real writer, real reader,
 //	    chsql with the real DDL); the results must be equal
-//	c09 probe -q QUERY ...   (debug)
+//	c09 probe -q QUERY ...      (debug: one query through the chain with a scripted upstream)
+//	c09 e2eprobe -q QUERY -l LINE...  (debug: one query end to end over one stored stream {a="p"})
 package main
 
 import (
@@ -43,6 +44,8 @@ func main() {
 		err = chainWorker(fs, os.Args[2:], realStdout)
 	case "cross":
 		err = crossMain(fs, os.Args[2:])
+	case "e2eprobe":
+		err = e2eProbe(fs, os.Args[2:])
 	case "probe":
 		os.Stdout = realStdout
 		err = probeMain(fs, os.Args[2:])
